@@ -58,8 +58,40 @@ def _cpu_seconds_tree(pid):
     return total
 
 
+def _rss_gb(pid):
+    try:
+        with open("/proc/%d/status" % pid) as f:
+            for line in f:
+                if line.startswith("VmRSS:"):
+                    return int(line.split()[1]) / (1 << 20)
+    except Exception:
+        pass
+    return 0.0
+
+
+def child_setup(mem_gb=None, cpu_s=None):
+    """preexec_fn for every process of the code under test: bounded address space (an unbounded-allocation defect must not
+    take the sandbox down), bounded CPU time (SIGXCPU = decided on CPU steps, not wall-clock) and death with the parent."""
+    def f():
+        import ctypes
+        import resource
+        try:
+            if mem_gb:
+                resource.setrlimit(resource.RLIMIT_AS, (int(mem_gb * (1 << 30)), int(mem_gb * (1 << 30))))
+            if cpu_s:
+                resource.setrlimit(resource.RLIMIT_CPU, (int(cpu_s), int(cpu_s) + 5))
+            resource.setrlimit(resource.RLIMIT_CORE, (0, 0))
+            ctypes.CDLL("libc.so.6").prctl(1, 9)  # PR_SET_PDEATHSIG, SIGKILL
+        except Exception:
+            pass
+    return f
+
+
+RSS_LIMIT_GB = 6.0
+
+
 class OpServer:
-    CPU_LIMIT = 25.0      # CPU seconds one request may burn before it is "unbounded computation"
+    CPU_LIMIT = 12.0      # CPU seconds one request may burn before it is "unbounded computation"
     WALL_LIMIT = 600.0    # wall-clock watchdog -> harness error (inconclusive), never a violation
 
     def __init__(self, path, extra_env=None, wrapper=None):
@@ -72,8 +104,10 @@ class OpServer:
     def _start(self):
         env = {"PATH": os.environ.get("PATH", "/usr/bin:/bin"), "RUST_BACKTRACE": "0", "HOME": os.environ.get("HOME", "/root")}
         env.update(self.extra_env)
+        sanitized = "ASAN_OPTIONS" in env or "TSAN_OPTIONS" in env or bool(self.wrapper)
         self.p = subprocess.Popen(self.wrapper + [self.path], stdin=subprocess.PIPE, stdout=subprocess.PIPE,
-                                  stderr=subprocess.DEVNULL, env=env, bufsize=0)
+                                  stderr=subprocess.DEVNULL, env=env, bufsize=0,
+                                  preexec_fn=child_setup(None if sanitized else 4))
         self.starts += 1
         self.buf = b""
 
@@ -122,6 +156,9 @@ class OpServer:
             if cpu is not None and cpu - cpu0 > cpu_limit:
                 self._kill()
                 return "hang"
+            if _rss_gb(self.p.pid) > RSS_LIMIT_GB:
+                self._kill()
+                return "crash:memory use beyond %.0f GiB on one request (unbounded allocation)" % RSS_LIMIT_GB
             if time.time() - t0 > self.WALL_LIMIT:
                 self._kill()
                 raise HarnessError("op-server made no progress for %ds wall-clock (watchdog)" % self.WALL_LIMIT)
@@ -133,8 +170,13 @@ class OpServer:
         out = []
         i = 0
         n = len(reqs)
+        hangs = 0
         enc = [json.dumps(r, separators=(",", ":")).encode() + b"\n" for r in reqs]
         while i < n:
+            if hangs >= 3:
+                # a tree that hangs on many inputs: three witnesses are enough, the rest of the batch is not executed
+                out.extend({"skipped": "batch abandoned after 3 hangs"} for _ in range(n - i))
+                break
             if self.p is None:
                 self._start()
             # pipeline a window whose total size stays below the pipe capacity
@@ -153,6 +195,7 @@ class OpServer:
                 line = self._readline(cpu_limit)
                 if isinstance(line, str):
                     if line == "hang":
+                        hangs += 1
                         out.append({"hang": "more than %.0fs of CPU on one request" % cpu_limit})
                     else:
                         out.append({"crash": line[6:]})
@@ -267,7 +310,7 @@ class Cli:
                 env["LD_PRELOAD"] = self.interposer
                 logpath = os.path.join(d, "entropy.log")
                 env["VERIF_ENT_LOG"] = logpath
-                for k in ("MODE", "SEED", "HEX", "FAIL_AT", "FAIL_FROM", "CAP", "DELAY"):
+                for k in ("MODE", "SEED", "HEX", "FAIL_AT", "FAIL_FROM", "CAP", "DELAY", "ERRNO"):
                     if ent.get(k) is not None:
                         env["VERIF_ENT_" + k] = str(ent[k])
             stdin = bytes.fromhex(spec["stdin_hex"]) if spec.get("stdin_hex") is not None else b""
@@ -283,8 +326,13 @@ class Cli:
             if spec.get("strace"):
                 strace_out = os.path.join(d, "strace.out")
                 wrapper = ["strace", "-f", "-qq", "-xx", "-s", "400", "-e", "trace=getrandom,openat,read", "-o", strace_out] + wrapper
+            sanitized = bool(wrapper) or any(k in env for k in ("ASAN_OPTIONS", "TSAN_OPTIONS"))
+            # CPU bound: ordinary commands finish in milliseconds; 60 s of CPU on one command is unbounded computation. Vanity searches
+            # are bounded logically by the entropy-request cap instead and get a large CPU allowance.
+            cpu_s = spec.get("cpu_limit", 900 if ent is not None else 60) * (20 if sanitized else 1)
             p = subprocess.Popen([w.encode() for w in wrapper] + [self.path.encode()] + bargv, stdin=subprocess.PIPE,
-                                 stdout=subprocess.PIPE, stderr=subprocess.PIPE, env=benv, cwd=d)
+                                 stdout=subprocess.PIPE, stderr=subprocess.PIPE, env=benv, cwd=d,
+                                 preexec_fn=child_setup(None if sanitized else 4, cpu_s))
             obs = {}
             # Termination is not decided on wall-clock: a process that is alive but has made no CPU progress for
             # STALL seconds is blocked ("hang"); one that is still computing when the generous watchdog fires is
@@ -308,6 +356,12 @@ class Cli:
                     cpu = _cpu_seconds_tree(p.pid)
                     if last_cpu is None or cpu is None or cpu - last_cpu > 0.02:
                         last_cpu, last_change = cpu, now
+                    if _rss_gb(p.pid) > RSS_LIMIT_GB:
+                        p.kill()
+                        so, se = p.communicate()
+                        obs["signal"] = 9
+                        obs["memory"] = "memory use beyond %.0f GiB (unbounded allocation)" % RSS_LIMIT_GB
+                        break
                     if now - last_change >= STALL:
                         p.kill()
                         so, se = p.communicate()
@@ -318,7 +372,7 @@ class Cli:
                         so, se = p.communicate()
                         obs["timeout"] = "still computing after %ds wall-clock" % timeout
                         break
-            obs["stdout_hex"] = so.hex() if len(so) <= (1 << 16) else None
+            obs["stdout_hex"] = so.hex() if len(so) <= (1 << 22) else None
             obs["stdout_len"] = len(so)
             obs["stdout_sha"] = hashlib.sha256(so).hexdigest()
             obs["stdout"] = so[:1 << 16].decode("utf-8", "replace")
@@ -360,6 +414,10 @@ def abnormal(obs):
         if k in obs:
             return "%s: %s" % (k, str(obs[k])[:300])
     if "signal" in obs:
+        if obs["signal"] == 24:
+            return "unbounded computation (CPU limit reached, SIGXCPU)"
+        if obs.get("memory"):
+            return "abort: %s" % obs["memory"]
         return "signal %d" % obs["signal"]
     if obs.get("exit") == 101:
         return "panic (exit 101): %s" % obs.get("stderr", "")[-300:]
